@@ -951,7 +951,9 @@ def _inline_prebuilt_callables(program, known: Set[str]) -> List[str]:
             elif isinstance(st, ast.AnnAssign) and isinstance(st.target, ast.Name) and st.value is not None:
                 counts[st.target.id] = counts.get(st.target.id, 0) + 1
         for name, val in m.assigns.items():
-            if not _is_private(name) or f"={m.name}.{name}" in known or counts.get(name) != 1:
+            literal = isinstance(val, ast.Constant) or (isinstance(val, ast.UnaryOp) and isinstance(val.operand, ast.Constant))
+            # (a new public NAME = <literal> is a name for that literal just the same)
+            if not (_is_private(name) or literal) or f"={m.name}.{name}" in known or counts.get(name) != 1:
                 continue
             if isinstance(val, ast.Call) and isinstance(val.func, ast.Name) and val.func.id in m.functions and all(isinstance(a, ast.Constant) for a in list(val.args) + [k.value for k in val.keywords]):
                 cands[name] = val
@@ -1363,6 +1365,93 @@ def _last_index_locals(program) -> List[str]:
     return log
 
 
+def _chain_fresh_stores(program) -> List[str]:
+    """`v = {}` directly followed by `x[k] = v` (or `x.a = v`) is `v = x[k] = {}`: v names the very object stored there."""
+    log: List[str] = []
+
+    def fresh(e):
+        return (isinstance(e, (ast.Dict, ast.List, ast.Set)) and not (getattr(e, "keys", None) or getattr(e, "elts", None))) or (isinstance(e, ast.Call) and isinstance(e.func, ast.Name) and e.func.id in ("dict", "list", "set") and not e.args and not e.keywords)
+
+    for fi in program.functions.values():
+        fn = fi.node
+        if not isinstance(fn, (ast.FunctionDef, ast.AsyncFunctionDef)):
+            continue
+        todo = [fn]
+        n = 0
+        while todo:
+            x = todo.pop()
+            for fld in ("body", "orelse", "finalbody"):
+                b = getattr(x, fld, None)
+                if not (isinstance(b, list) and b and isinstance(b[0], ast.stmt)):
+                    continue
+                i = 0
+                while i + 1 < len(b):
+                    s1, s2 = b[i], b[i + 1]
+                    t1 = s1.targets[0] if isinstance(s1, ast.Assign) and len(s1.targets) == 1 else s1.target if isinstance(s1, ast.AnnAssign) and s1.value is not None else None
+                    if isinstance(t1, ast.Name) and fresh(s1.value) and isinstance(s2, ast.Assign) and len(s2.targets) == 1 and isinstance(s2.targets[0], (ast.Subscript, ast.Attribute)) and isinstance(s2.value, ast.Name) and s2.value.id == t1.id and not any(isinstance(y, ast.Call) for y in ast.walk(s2.targets[0])):
+                        new = ast.Assign(targets=[ast.Name(id=t1.id, ctx=ast.Store()), s2.targets[0]], value=s1.value)
+                        ast.copy_location(new, s1)
+                        ast.fix_missing_locations(new)
+                        b[i:i + 2] = [new]
+                        n += 1
+                    i += 1
+                for st in b:
+                    if not isinstance(st, (ast.FunctionDef, ast.AsyncFunctionDef, ast.ClassDef)):
+                        todo.append(st)
+            for h in getattr(x, "handlers", []) or []:
+                todo.append(h)
+        if n:
+            log.append(f"{fi.qual}: {n} fresh container(s) stored right after creation are read as chained assignments")
+    return log
+
+
+def _if_else_assign_as_ifexp(program) -> List[str]:
+    """`if c: v = a` / `else: v = b` (one plain assignment of the same local in each branch) is `v = a if c else b`;
+    `x if x else y` is `x or y`."""
+    log: List[str] = []
+
+    def single_assign(body):
+        if len(body) != 1:
+            return None
+        st = body[0]
+        if isinstance(st, ast.Assign) and len(st.targets) == 1 and isinstance(st.targets[0], ast.Name):
+            return st.targets[0].id, st.value
+        if isinstance(st, ast.AnnAssign) and isinstance(st.target, ast.Name) and st.value is not None:
+            return st.target.id, st.value
+        return None
+
+    class T(ast.NodeTransformer):
+        n = 0
+
+        def visit_FunctionDef(self, node):
+            return node  # nested functions are handled as functions of their own
+
+        visit_AsyncFunctionDef = visit_Lambda = visit_FunctionDef
+
+        def visit_If(self, node):
+            self.generic_visit(node)
+            a, b = single_assign(node.body), single_assign(node.orelse)
+            if a and b and a[0] == b[0] and not any(isinstance(x, (ast.NamedExpr, ast.Yield, ast.Await)) for x in ast.walk(node)):
+                val = ast.IfExp(test=node.test, body=a[1], orelse=b[1])
+                if isinstance(node.test, ast.Name) and isinstance(a[1], ast.Name) and a[1].id == node.test.id:
+                    val = ast.BoolOp(op=ast.Or(), values=[a[1], b[1]])
+                new = ast.Assign(targets=[ast.Name(id=a[0], ctx=ast.Store())], value=val)
+                T.n += 1
+                return ast.fix_missing_locations(ast.copy_location(new, node))
+            return node
+
+    for fi in program.functions.values():
+        fn = fi.node
+        if not isinstance(fn, (ast.FunctionDef, ast.AsyncFunctionDef)):
+            continue
+        before = T.n
+        t = T()
+        fn.body = [y for st in fn.body for y in (lambda r: r if isinstance(r, list) else [r])(t.visit(st) if not isinstance(st, (ast.FunctionDef, ast.AsyncFunctionDef, ast.ClassDef)) else st)]
+        if T.n > before:
+            log.append(f"{fi.qual}: {T.n - before} if/else assignment(s) of one local read as a conditional expression")
+    return log
+
+
 def _bound_method_aliases(program) -> List[str]:
     """`m = obj.path.method` ... `m(args)` with m assigned once and used only as a callee is `obj.path.method(args)`."""
     log: List[str] = []
@@ -1410,5 +1499,5 @@ def apply(program) -> List[str]:
         inl.drop_fully_inlined()
     sr = _scalar_replacement(program, known) if any(k.startswith("@") for k in known) else []
     sm = _simplify_inlined(program, inl.touched) if inl.touched else []
-    li = _last_index_locals(program) + _bound_method_aliases(program)
+    li = _last_index_locals(program) + _bound_method_aliases(program) + _chain_fresh_stores(program) + _if_else_assign_as_ifexp(program)
     return log + inl.log + sr + sm + li
